@@ -21,6 +21,7 @@ type Env struct {
 	bound   map[string]Val
 	depth   int
 	recName string
+	noInst  bool
 }
 
 func (f *FnCtx) newEnv(pkg string, heap, old *Heap, vars map[string]Val, results []Val) *Env {
@@ -197,10 +198,13 @@ func (e *Env) eval(x Expr) (Val, error) {
 		if v, ok := e.vars[n.Name]; ok {
 			return v, nil
 		}
-		if strings.HasPrefix(n.Name, "result") {
+		if strings.HasPrefix(n.Name, "result") || strings.HasPrefix(n.Name, "ret") && (len(n.Name) == 3 || n.Name[3] >= '0' && n.Name[3] <= '9') {
 			idx := 0
-			if len(n.Name) > 6 {
-				fmt.Sscanf(n.Name[6:], "%d", &idx)
+			digits := strings.TrimPrefix(strings.TrimPrefix(n.Name, "result"), "ret")
+			if digits != "" {
+				if _, err := fmt.Sscanf(digits, "%d", &idx); err != nil {
+					return Val{}, fmt.Errorf("unknown identifier %q", n.Name)
+				}
 			}
 			if idx < len(e.results) {
 				return e.results[idx], nil
@@ -623,6 +627,32 @@ func (e *Env) applyRec(p *PredSpec, args []Val) (Val, error) {
 	return Val{K: kindOf(rt), T: rt, Tm: app(name, ts...)}, nil
 }
 
+// evalAddr: the address denoted by a selector expression x.f (for locks embedded in structs).
+func (e *Env) evalAddr(x Expr) (string, error) {
+	if sel, ok := x.(*ESel); ok {
+		base, err := e.eval(sel.X)
+		if err != nil {
+			return "", err
+		}
+		if pt, ok := base.T.Underlying().(*types.Pointer); ok && base.K == KRef {
+			if i, ok := fieldIndex(pt.Elem(), sel.Name); ok {
+				ft := pt.Elem().Underlying().(*types.Struct).Field(i).Type()
+				if kindOf(ft) == KStruct {
+					return e.f.faddr(base.Tm, pt.Elem(), i), nil
+				}
+			}
+		}
+	}
+	v, err := e.eval(x)
+	if err != nil {
+		return "", err
+	}
+	if v.K != KRef {
+		return "", fmt.Errorf("expected a lock/pointer expression")
+	}
+	return v.Tm, nil
+}
+
 func (e *Env) evalArgs(args []Expr) ([]Val, error) {
 	var out []Val
 	for _, a := range args {
@@ -709,6 +739,13 @@ func (e *Env) evalCall(n *ECall) (Val, error) {
 		}
 		return f.zeroVal(t), nil
 	}
+	if id.Name == "held" && len(n.Args) == 1 {
+		a, err := e.evalAddr(n.Args[0])
+		if err != nil {
+			return Val{}, err
+		}
+		return intVal(f.lockHeld(e.heap, a)), nil
+	}
 	args, err := e.evalArgs(n.Args)
 	if err != nil {
 		return Val{}, err
@@ -766,6 +803,15 @@ func (e *Env) evalCall(n *ECall) (Val, error) {
 		return intVal(app("any_tag", args[0].Tm)), nil
 	case "same":
 		return boolVal(f.sameVal(args[0], args[1])), nil
+	case "yielded":
+		// yielded(k): number of keys the k-th map range statement of this function has yielded so far
+		k := 0
+		fmt.Sscanf(args[0].Tm, "%d", &k)
+		key, ok := f.rangeKeys[k]
+		if !ok {
+			return Val{}, fmt.Errorf("yielded(%d): no such map range statement", k)
+		}
+		return intVal(f.hs.read(e.heap, key)), nil
 	case "held":
 		// held(mutexAddrExpr): lock mode of a mutex
 		return intVal(f.lockHeld(e.heap, args[0].Tm)), nil
@@ -869,7 +915,48 @@ func (e *Env) evalQuant(n *EQuant) (Val, error) {
 		q = "exists"
 		body = and(append(ranges, body)...)
 	}
-	return boolVal(fmt.Sprintf("(%s (%s) %s)", q, strings.Join(decls, " "), body)), nil
+	quant := fmt.Sprintf("(%s (%s) %s)", q, strings.Join(decls, " "), body)
+	// Ground instances at the index terms the function itself uses: logically
+	// redundant (forall implies them, they imply exists) but they spare the
+	// solver the arithmetic needed to find the instantiation.
+	if len(n.Vars) == 1 && !e.noInst {
+		if t, err := f.e.resolveType(e.pkg, n.Vars[0].T); err == nil && kindOf(t) == KInt {
+			var insts []string
+			seen := map[string]bool{}
+			for i := len(f.indexTerms) - 1; i >= 0 && len(insts) < 6; i-- {
+				w := f.indexTerms[i]
+				if seen[w] {
+					continue
+				}
+				seen[w] = true
+				inst := *e
+				inst.noInst = true
+				inst.bound = map[string]Val{}
+				for k, v := range e.bound {
+					inst.bound[k] = v
+				}
+				wv := Val{K: KInt, T: t, Tm: w}
+				inst.bound[n.Vars[0].Name] = wv
+				b, err := inst.evalBool(n.Body)
+				if err != nil {
+					continue
+				}
+				r := f.typeRangeTerm(wv)
+				if n.Forall {
+					insts = append(insts, implies(r, b))
+				} else {
+					insts = append(insts, and(r, b))
+				}
+			}
+			if len(insts) > 0 {
+				if n.Forall {
+					return boolVal(and(append(insts, quant)...)), nil
+				}
+				return boolVal(or(append(insts, quant)...)), nil
+			}
+		}
+	}
+	return boolVal(quant), nil
 }
 
 func (e *Env) boundVal(base string, t types.Type, decls *[]string) Val {
@@ -942,12 +1029,12 @@ func (e *Env) havocLocation(h *Heap, x Expr) (*Heap, error) {
 				return nil, fmt.Errorf("contents() of %s", m.T)
 			}
 			if id.Name == "held" && len(n.Args) == 1 {
-				a, err := e.eval(n.Args[0])
+				a, err := e.evalAddr(n.Args[0])
 				if err != nil {
 					return nil, err
 				}
 				key := f.ghostKey("lockheld", sortInt, true, sortInt)
-				return pointwise(key, a.Tm), nil
+				return pointwise(key, a), nil
 			}
 			if id.Name == "closed" && len(n.Args) == 1 {
 				a, err := e.eval(n.Args[0])
